@@ -254,6 +254,39 @@ def r3(ctx, F):
                     for vb, vt in vals:
                         vo |= {(o.kind, o.key, o.bb) for o in dfl.origins(vt['args'][0])}
                     good = good and bool(ro & vo)
+    if not good and vals:
+        # the same guarantee as a combinator: `header.validate().map(|()| header)` is Ok exactly when validate is
+        rets = [(rb, kind, data) for (rb, kind, data) in ret_defs(d) if not (kind == 'call' and callee(data) == 'std::ops::FromResidual::from_residual')]
+        via_map = bool(rets)
+        for rb, kind, data in rets:
+            if kind == 'assign' and data['k'] == 'agg' and data.get('vname') == 'Err':
+                continue
+            if not (kind == 'call' and callee(data) in ('std::result::Result::<T, E>::map', 'std::result::Result::<T, E>::and_then', 'std::result::Result::<T, E>::and')):
+                via_map = False
+                continue
+            src = [o for o in dfl.origins(data['args'][0]) if o.kind != 'comb']
+            if not (src and all(o.kind == 'call' and o.key == 'protocol::FrameHeader::validate' for o in src)):
+                via_map = False
+                continue
+            # the closure hands back the validated header
+            vo = set()
+            for vb, vt in vals:
+                vo |= {(o.kind, o.key, o.bb) for o in dfl.origins(vt['args'][0])}
+            hands_back = False
+            for o in dfl.origins(data['args'][1]):
+                cb_ = F.body(o.key) if o.kind == 'agg' else None
+                if cb_ is not None:
+                    ro = [x for x in flow_of(cb_).origins(0) if x.kind != 'comb']
+                    if ro and all(x.kind == 'upvar' for x in ro):
+                        for blk in d.blocks:
+                            for st in blk['stmts']:
+                                rv = st['rv']
+                                if rv['k'] == 'agg' and rv.get('ak') == 'closure' and norm(rv['def']) == cb_.path:
+                                    for x in ro:
+                                        co = {(y.kind, y.key, y.bb) for y in dfl.origins(rv['ops'][int(x.key)])}
+                                        hands_back = hands_back or bool(co & vo)
+            via_map = via_map and hands_back
+        good = via_map
     ctx.check(good, 'C20.R3', 'decode:validate-guards-Ok', 'Ok(header) only after header.validate() returned Ok',
               'FrameHeader::decode can return a header that was not validated', loc(d, d.lo))
     vfl = flow_of(v)
